@@ -597,13 +597,9 @@ Interval<To_Boundary, To_Info>::refine_universal(Relation_Symbol rel,
       if (check_empty_arg(*this)) {
         return I_EMPTY;
       }
-      if (eq(LOWER, lower(), info(), LOWER, f_lower(x), f_info(x))) {
-        remove_inf();
-      }
-      if (eq(UPPER, upper(), info(), UPPER, f_upper(x), f_info(x))) {
-        remove_sup();
-      }
-      return I_ANY;
+      // The values different from all the elements of `x'
+      // are those that are not in `x'.
+      return difference_assign(x);
     }
   default:
     PPL_UNREACHABLE;
